@@ -114,6 +114,9 @@ pub enum Ev {
     SealMany { c: usize, n: u32, len: usize, inplace: bool },
     /// the AEAD primitive fails on the next encryption (shimmed suites only)
     FailNextSeal { c: usize },
+    /// the AEAD primitive fails on the next decryption of receiver r (shimmed suites only): a transient
+    /// fault. The open fails with OpenError, nothing moves, and the same message opens afterwards.
+    FailNextOpen { r: usize },
     Deliver { r: usize, from: usize, rec: RecRef, fault: Fault, api: OpenApi },
     /// seal on `from`, deliver to `r` untouched, n times (fault-free bulk traffic)
     Pump { r: usize, from: usize, n: u32, len: usize, inplace_s: bool, inplace_r: bool },
@@ -126,6 +129,15 @@ pub enum Ev {
     ExportCmp { s: usize, r: usize, ctx: B, len: usize },
     /// logical-clock jump (hook)
     Jump { c: usize, role: Role, to: u64 },
+    /// logical-clock jump to a position chosen relative to the context's base nonce: the top
+    /// `keep_top` bytes of the 64-bit position equal the corresponding bytes of the base nonce (so the
+    /// per-message nonce has that many zero bytes in front of the counter part; 8 = all of them), the
+    /// rest comes from `low`. Positions at which nonce mixing is algebraically special.
+    JumpNonceRel { c: usize, role: Role, keep_top: u8, low: u64 },
+    /// logical-clock jump to the position at which the counter part of the per-message nonce (the last
+    /// eight bytes of base_nonce XOR position) equals `pat`: all ones, 2^k - 1, ... - positions where
+    /// code that looks at the *mixed* nonce instead of the counter goes wrong
+    JumpNonceXor { c: usize, role: Role, pat: u64 },
     Teardown { c: usize, role: Role },
     /// single-shot seal with the parameters of a would-be sender context, compared with the composed form
     SingleShotSeal { c: usize, cfg: Cfg, kr: usize, ks: Option<usize>, #[serde(default)] ks_pub: Option<usize>, rng: B, pt: B, aad: B, inplace: bool },
@@ -145,6 +157,13 @@ pub enum Ev {
     /// n messages of `len` bytes sealed and opened in place between sender c and receiver c without
     /// keeping records (total volume beyond 2^32 bytes on one context)
     VolumePump { c: usize, n: u32, len: usize },
+    /// one message with a huge plaintext *and* a huge aad through the allocating seal/open of the pair
+    /// of contexts c (sums of lengths beyond 2^32)
+    HugeAlloc { c: usize, pt_len: u64, aad_len: u64 },
+    /// a configuration string (0 info, 1 psk_id, 2 psk) of `pad` zero bytes after an 8-byte tag, i.e.
+    /// longer than 2^32 bytes: the matching receiver opens, a receiver that holds only the first
+    /// (length mod 2^32) bytes - or the string with its last byte changed - does not
+    HugeFieldProbe { suite: SuiteId, field: u8, pad: u64 },
     /// n exports in a row on one context (counters of successes in a narrow integer)
     ExportBurst { c: usize, role: Role, n: u32, len: usize },
     /// context dropped while its thread is unwinding from a panic (the wipes must still happen)
@@ -182,12 +201,15 @@ impl Ev {
             Ev::Seal { .. } => "Seal",
             Ev::SealMany { .. } => "SealMany",
             Ev::FailNextSeal { .. } => "FailNextSeal",
+            Ev::FailNextOpen { .. } => "FailNextOpen",
             Ev::Deliver { .. } => "Deliver",
             Ev::Pump { .. } => "Pump",
             Ev::TamperSweep { .. } => "TamperSweep",
             Ev::Export { .. } => "Export",
             Ev::ExportCmp { .. } => "ExportCmp",
             Ev::Jump { .. } => "Jump",
+            Ev::JumpNonceRel { .. } => "JumpNonceRel",
+            Ev::JumpNonceXor { .. } => "JumpNonceXor",
             Ev::Teardown { .. } => "Teardown",
             Ev::SingleShotSeal { .. } => "SingleShotSeal",
             Ev::DeriveProbe { .. } => "DeriveProbe",
@@ -204,6 +226,8 @@ impl Ev {
             Ev::RejectBurst { .. } => "RejectBurst",
             Ev::ExportBurst { .. } => "ExportBurst",
             Ev::VolumePump { .. } => "VolumePump",
+            Ev::HugeAlloc { .. } => "HugeAlloc",
+            Ev::HugeFieldProbe { .. } => "HugeFieldProbe",
             Ev::TeardownUnwinding { .. } => "TeardownUnwinding",
             Ev::StripZerosProbe { .. } => "StripZerosProbe",
             Ev::SingleShotOpenRaw { .. } => "SingleShotOpenRaw",
